@@ -88,6 +88,12 @@ Fixpoint ops_of (rots trans : list (list Z)) : option (list op) :=
   | _, _ => None
   end.
 
+Fixpoint all_mats (rots : list (list Z)) : option (list mat) :=
+  match rots with
+  | [] => Some []
+  | r :: rs => match mat_of_list r, all_mats rs with Some R, Some l => Some (R :: l) | _, _ => None end
+  end.
+
 Definition set_of (l : list op) : PositiveSet.t :=
   fold_left (fun s p => PositiveSet.add (op_code p) s) l PositiveSet.empty.
 Definition matset_of (l : list mat) : PositiveSet.t :=
